@@ -12,3 +12,22 @@ pub open spec fn variants_offered(variants: Seq<(TastIdent, Vec<Ty>)>, before: S
     after.len() >= before.len() && after.subrange(0, before.len() as int) =~= before
     && forall|i: int| before.len() <= i < after.len() ==> is_variant(variants, (#[trigger] after[i]).name@)
 }
+// ---- trait methods (fragment cc_trait_methods) ----
+#[verifier::external_body] pub struct FnScheme { _p: u64 }
+#[verifier::external_body] pub fn scheme_text(s: &FnScheme) -> (r: String) { unimplemented!() }                 // scheme.ty.to_pretty(80)
+#[verifier::external_body]
+#[verifier::reject_recursive_types(K)]
+#[verifier::reject_recursive_types(V)]
+pub struct IndexMap<K, V> { _k: core::marker::PhantomData<(K, V)> }
+impl<V> IndexMap<String, V> {
+    pub uninterp spec fn view(&self) -> Map<Seq<char>, V>;
+    // iter(): every entry once, in an order this shim does not specify
+    #[verifier::external_body]
+    pub fn entries(&self) -> (r: Vec<(&String, &V)>) ensures forall|i: int| 0 <= i < r@.len() ==> self@.contains_key((#[trigger] r@[i]).0@) { unimplemented!() }
+}
+pub struct TraitDef { pub methods: IndexMap<String, FnScheme> }
+// whatever is added names a method the trait's definition HAS; what was collected before is kept
+pub open spec fn methods_offered(methods: Map<Seq<char>, FnScheme>, before: Seq<ColonColonCompletionItem>, after: Seq<ColonColonCompletionItem>) -> bool {
+    after.len() >= before.len() && after.subrange(0, before.len() as int) =~= before
+    && forall|i: int| before.len() <= i < after.len() ==> methods.contains_key((#[trigger] after[i]).name@)
+}
